@@ -55,7 +55,7 @@ impl<'a> Message<'a> {
 /// frames with a PTP version other than 2, undecodable frames, frames of another domain or sdoId: no effect
 /// whatsoever on either receive path, in every port state (C07); and no panic (C03).
 #[kani::proof]
-#[kani::unwind(9)]
+#[kani::unwind(34)]
 #[kani::stub(PortActionIterator::from, PortActionIterator::verif_recording_from)]
 #[kani::stub(Message::deserialize, Message::verif_stub_deserialize)]
 #[kani::stub(Message::serialize, Message::verif_recording_serialize)]
@@ -95,7 +95,7 @@ fn c07_foreign_domain_version_or_malformed_is_frame() {
 
 /// event messages (Sync, Delay_Req, Pdelay_Resp) delivered on the general channel: no effect (C07)
 #[kani::proof]
-#[kani::unwind(9)]
+#[kani::unwind(34)]
 #[kani::stub(PortActionIterator::from, PortActionIterator::verif_recording_from)]
 #[kani::stub(Message::deserialize, Message::verif_stub_deserialize)]
 #[kani::stub(Message::serialize, Message::verif_recording_serialize)]
